@@ -139,8 +139,9 @@ fn side(v: bool) -> bool { calls = calls + 1u; return v; }
   out[5] = calls;
   out[6] = select(0u, 1u, !r4) + select(0u, 2u, t | f) + select(0u, 4u, t != f) + select(0u, 8u, t == f);
 }`,
-			bufs: map[int][]byte{1: u32s(1)},
-			want: []any{0, 0, 1, 2, 10, 3, 7},
+			bufs:           map[int][]byte{1: u32s(1)},
+			zeroInitDefect: "var<private> without/with dropped initializer is emitted as OpVariable without initializer: contents undefined in SPIR-V, WGSL requires the zero value",
+			want:           []any{0, 0, 1, 2, 10, 3, 7},
 		},
 		{
 			name: "convert_in_range",
